@@ -1,6 +1,7 @@
 (* C17 - RRT* choose-parent and rewiring only ever shorten cost-to-come. *)
 From Coq Require Import ZArith NArith List Bool Floats.
 From OX Require Import Numerics.FloatBits Planners.Model Proofs.ValidInv Proofs.TreeInv Proofs.StarInv Proofs.StarSpec Proofs.TreeFinal.
+From OX Require Spaces.SpacesF Spaces.DistSane.
 Import ListNotations.
 
 Section C17.
@@ -72,6 +73,18 @@ Proof. exact (shadow_iter_cost dist interp lvs valid maxd radius Hd). Qed.
 
 End C17.
 
+(* The one assumption of this file (and of C15's acyclicity), "distances are >= 0 and not NaN", holds of the
+   executable float model of every state space (R^n, SO(2), SO(3), weighted compounds of them, to any depth),
+   for all arguments on which it can hold: no NaN coordinate difference in an R^n leaf, a finite angle
+   difference in an SO(2) leaf, finite non-zero weights; nothing is asked of quaternions; acos is an oracle
+   assumed non-negative and not NaN on [0,1].  (DistSane.v also proves these conditions necessary.) *)
+Theorem C17_float_distances_are_sane : forall acosF : F -> F,
+  (forall x, fle zero x = true -> fle x one = true -> fle zero (acosF x) = true) ->
+  forall (sp : SpacesF.space) (a b : SpacesF.st) (d : F),
+  DistSane.sane_args sp a b -> SpacesF.distance acosF sp a b = SpacesF.Ok d -> fle zero d = true.
+Proof. exact DistSane.distance_sane. Qed.
+
+Print Assumptions C17_float_distances_are_sane.
 Print Assumptions C17_cost_invariant.
 Print Assumptions C17_cost_bounds_branch.
 Print Assumptions C17_choose_parent_min.
